@@ -11,7 +11,8 @@
 
 static int g_fail_invert_at = -1;     /* fail the n-th (0-based) call from now; -1 = never */
 static int g_invert_calls = 0;
-static int g_table_mode = 0;          /* 0: low/high nibble products; 1: same, xored with 0x5a mask */
+static int g_table_mode = 0;          /* 0: low/high nibble products, row-major; 1: same, xored with 0x5a mask;
+                                         * 2: column-major entries, high nibble products first (another private layout) */
 static long g_encode_calls = 0;
 
 void refisal_fail_invert_at(int n) { __atomic_store_n(&g_fail_invert_at, n, __ATOMIC_RELAXED); __atomic_store_n(&g_invert_calls, 0, __ATOMIC_RELAXED); }
@@ -109,11 +110,13 @@ void ec_init_tables(int k, int rows, unsigned char *a, unsigned char *g_tbls)
     for (i = 0; i < rows; i++)
         for (j = 0; j < k; j++) {
             unsigned char c = a[i * k + j];
-            unsigned char *tb = g_tbls + ((size_t)(i * k + j)) * 32;
+            int mode = __atomic_load_n(&g_table_mode, __ATOMIC_RELAXED);
+            unsigned char *tb = g_tbls + (mode == 2 ? (size_t)(j * rows + i) : (size_t)(i * k + j)) * 32;
+            int lo_at = mode == 2 ? 16 : 0, hi_at = mode == 2 ? 0 : 16;
             for (t = 0; t < 16; t++) {
-                tb[t] = gf_mul(c, (unsigned char)t);
-                tb[16 + t] = gf_mul(c, (unsigned char)(t << 4));
-                if (__atomic_load_n(&g_table_mode, __ATOMIC_RELAXED) == 1) { tb[t] ^= 0x5a; tb[16 + t] ^= 0x5a; }
+                tb[lo_at + t] = gf_mul(c, (unsigned char)t);
+                tb[hi_at + t] = gf_mul(c, (unsigned char)(t << 4));
+                if (mode == 1) { tb[t] ^= 0x5a; tb[16 + t] ^= 0x5a; }
             }
         }
 }
@@ -128,10 +131,11 @@ void ec_encode_data(int len, int k, int rows, unsigned char *g_tbls, unsigned ch
         assert(coding[i] || len == 0);
         if (len) memset(coding[i], 0, (size_t)len);
         for (j = 0; j < k; j++) {
-            const unsigned char *tb = g_tbls + ((size_t)(i * k + j)) * 32;
+            int mode = __atomic_load_n(&g_table_mode, __ATOMIC_RELAXED);
+            const unsigned char *tb = g_tbls + (mode == 2 ? (size_t)(j * rows + i) : (size_t)(i * k + j)) * 32;
             unsigned char lo[16], hi[16];
             assert(data[j] || len == 0);
-            for (b = 0; b < 16; b++) { lo[b] = tb[b]; hi[b] = tb[16 + b]; if (__atomic_load_n(&g_table_mode, __ATOMIC_RELAXED) == 1) { lo[b] ^= 0x5a; hi[b] ^= 0x5a; } }
+            for (b = 0; b < 16; b++) { lo[b] = tb[mode == 2 ? 16 + b : b]; hi[b] = tb[mode == 2 ? b : 16 + b]; if (mode == 1) { lo[b] ^= 0x5a; hi[b] ^= 0x5a; } }
             for (b = 0; b < len; b++) { unsigned char s = data[j][b]; coding[i][b] ^= lo[s & 15] ^ hi[s >> 4]; }
         }
     }
